@@ -12,7 +12,7 @@ import json, os, pickle
 
 class Body:
     __slots__ = ("id", "kind", "file", "line", "vis", "impl", "root", "argc", "locals",
-                 "vars", "blocks", "crate", "_succ", "_pred", "_varname", "_cache")
+                 "vars", "blocks", "crate", "promoted", "_succ", "_pred", "_varname", "_cache")
 
     def __init__(self, d, crate):
         self.id = d["id"]
@@ -27,10 +27,23 @@ class Body:
         self.vars = d["vars"]
         self.blocks = d["blocks"]
         self.crate = crate
+        self.promoted = d.get("promoted", [])
         self._succ = None
         self._pred = None
         self._varname = None
         self._cache = {}
+
+    def promoted_body(self, k):
+        """the k-th promoted constant of this body as a (parameterless) Body"""
+        key = ("promoted", k)
+        if key not in self._cache:
+            if k >= len(self.promoted):
+                return None
+            d = dict(self.promoted[k])
+            d.update({"id": "%s::promoted[%d]" % (self.id, k), "kind": "promoted", "file": self.file, "line": self.line,
+                      "vis": "na", "impl": None, "root": self.id, "argc": 0})
+            self._cache[key] = Body(d, self.crate)
+        return self._cache[key]
 
     # ---- basic accessors
     def nblocks(self):
